@@ -646,7 +646,7 @@ c13_resume!(c13_resume_n2, 2);
 
 //@ name: c13_resume_n3
 //@ prop: C13
-//@ tier: thorough
+//@ tier: experimental
 //@ clause: as c13_resume_n1
 //@ funcs: TransferControl::push_replay; request_resume; ReplayRing::push; ReplayRing::covers; ReplayRing::replay_from; wait_for_reconnect; peer; offsets
 //@ symbolic: as c13_resume_n1
@@ -874,6 +874,7 @@ c12_o1!(c12_o1_push, 5);
 static mut O2_DEADLINE_S: u64 = 0;
 static mut O2_CHUNK: u64 = 0;
 static mut O2_WAITS: u32 = 0;
+static mut O2_MAX_WAITS: u32 = 2;
 static mut O2_RECONNECT: bool = false;
 static mut O2_SLEPT_ON_TRUE: bool = false;
 static mut O2_BAD_DURATION: bool = false;
@@ -893,7 +894,7 @@ fn wait_timeout_havoc<'a, T>(
 ) -> std::sync::LockResult<(std::sync::MutexGuard<'a, T>, std::sync::WaitTimeoutResult)> {
     unsafe {
         O2_WAITS += 1;
-        kani::assume(O2_WAITS <= 2); // bound: at most 2 sleeps per wait call
+        kani::assume(O2_WAITS <= O2_MAX_WAITS); // bound: sleeps per wait call
         let inner: &mut TransferControlInner = &mut *((&mut *guard) as *mut T as *mut TransferControlInner);
         let ready = if O2_RECONNECT { reconnect_ready(inner) } else { credit_ready(inner, O2_CHUNK) };
         if ready {
@@ -1091,4 +1092,25 @@ fn c12_clock_model_sanity() {
     assert!(d.as_secs() == a - b && d.subsec_nanos() == 0);
     assert!((ia > ib) == (a > b) && (ia >= ib));
     assert!((ia == ib) == (a == b));
+}
+
+//@ prop: C12
+//@ tier: thorough
+//@ clause: as c12_o2_credit_waiter with up to 3 sleeps (4 loop iterations) per wait call
+//@ funcs: TransferControl::wait_for_credit
+//@ symbolic: as c12_o2_credit_waiter
+//@ bounds: at most 3 sleeps per call; unwind 5; clock in whole seconds
+//@ oracle: predicate from C11 evaluated on the locked state at each decision point
+//@ stubs: Condvar::wait_timeout -> havoc + arbitrary timed-out flag; Instant::now -> symbolic monotone clock
+//@ replay: solver-trace
+//@ timeout: 1800
+#[kani::proof]
+#[kani::stub(std::time::Instant::now, crate::verif_common::now_stub)]
+#[kani::stub(std::sync::Condvar::wait_timeout, wait_timeout_havoc)]
+#[kani::unwind(5)]
+fn c12_o2_credit_waiter_3_sleeps() {
+    unsafe {
+        O2_MAX_WAITS = 3;
+    }
+    c12_o2_credit_waiter();
 }
